@@ -700,4 +700,29 @@ theorem count_split (data : Bits) :
     · simp at ih ⊢; omega
     · simp at ih ⊢; omega
 
+theorem negCount_false (count : Option Int) :
+    (∀ c, count = some c → 0 ≤ c) →
+    (match count with | some c => decide (c < 0) | none => false) = false := by
+  intro hc
+  cases count with
+  | none => rfl
+  | some c => have := hc c rfl; simp; omega
+
+theorem findall_unfold (data pat : Bits) (start stop : Option Int) (count : Option Int) (ba : Option Bool) (optBA : Bool)
+    (hc : ∀ c, count = some c → 0 ≤ c) :
+    findall data pat start stop count ba optBA =
+      match validateSlice data.length start stop with
+      | .error e => .error e
+      | .ok (s, e) => .ok (findallCount (countNat count) (findallMsb0 data pat s e (defaultBA ba optBA)) 0) := by
+  unfold findall
+  cases count with
+  | none =>
+    simp [countNat]
+    cases validateSlice data.length start stop <;> rfl
+  | some c =>
+    have := hc c rfl
+    have h : ¬ c < 0 := by omega
+    simp [h, countNat]
+    cases validateSlice data.length start stop <;> rfl
+
 end BM.C07
